@@ -460,3 +460,6 @@ def replay(doc):
     if bad:
         return True, f"reproduced: {bad[0]}: {bad[1]}"
     return False, "operand pair agrees with the definitions"
+
+
+RULE += ' Also (wave 9): the operand pairs with offsets mapped order-preservingly to (line, column) pairs, zero padded strings and fractions; pairs of sets of 64-160 spans (membership of spans sharing an end point with a stored span, all operators, <=, isdisjoint).'
